@@ -5,6 +5,7 @@ package serialize
 import (
 	"errors"
 	"fmt"
+	"math"
 	"reflect"
 	"strings"
 
@@ -61,8 +62,9 @@ func listToMsg(msgType wamp.MessageType, vlist []any) (wamp.Message, error) {
 			f.Set(arg)
 			continue
 		}
-		// Cannot directly assign, so try to convert and assign.
-		if arg.Type().ConvertibleTo(f.Type()) {
+		// Cannot directly assign, so try to convert and assign, provided the
+		// conversion keeps the value.
+		if arg.Type().ConvertibleTo(f.Type()) && convertsExactly(arg, f.Type()) {
 			f.Set(arg.Convert(f.Type()))
 			continue
 		}
@@ -91,6 +93,36 @@ func listToMsg(msgType wamp.MessageType, vlist []any) (wamp.Message, error) {
 		panic(fmt.Sprintf("internal message field %d not recognized", i+1))
 	}
 	return msg, nil
+}
+
+// convertsExactly reports whether converting a received item to a message
+// field of type typ keeps its value. The conversion rules of reflect are those
+// of the Go language: they turn any integer into a one-character string, and
+// wrap or truncate a number that the target integer type cannot hold. An item
+// like that does not have a compatible type for the field, so it is rejected
+// instead of being silently changed into something else.
+func convertsExactly(arg reflect.Value, typ reflect.Type) bool {
+	switch typ.Kind() {
+	case reflect.String:
+		return arg.Kind() == reflect.String || arg.Kind() == reflect.Slice
+	case reflect.Uint, reflect.Uint8, reflect.Uint16, reflect.Uint32, reflect.Uint64:
+		switch {
+		case arg.CanInt():
+			return arg.Int() >= 0
+		case arg.CanFloat():
+			f := arg.Float()
+			return f >= 0 && f < 1<<64 && f == math.Trunc(f)
+		}
+	case reflect.Int, reflect.Int8, reflect.Int16, reflect.Int32, reflect.Int64:
+		switch {
+		case arg.CanUint():
+			return arg.Uint() <= math.MaxInt64
+		case arg.CanFloat():
+			f := arg.Float()
+			return f >= -1<<63 && f < 1<<63 && f == math.Trunc(f)
+		}
+	}
+	return true
 }
 
 // convertType converts a value to the specified type if necessary/possible.
